@@ -131,6 +131,19 @@ func TestC01(t *testing.T) {
 	}
 	r.Parallel(t, "general", r.Cfg.pick(3500, 40000), body(prioGen{Vers: allVers, Dividers: allDividers, Mode: "general"}))
 	r.Parallel(t, "v1-add-remove", r.Cfg.pick(1000, 12000), body(prioGen{Vers: []string{"v1"}, Dividers: allDividers, Mode: "addrm"}))
+	// HandlersQuantity values the v1 constructors accept although some priority gets no share
+	r.Parallel(t, "v1-priority-without-share", r.Cfg.pick(800, 10000), func(t *testing.T, idx int, rng *rand.Rand) {
+		c := r.prioCase(t, genPrioScenario(rng, prioGen{Vers: []string{"v1", "v1", "v1s"}, Dividers: []string{"rate", "rate", "rate", "hashw", "toprem", "fair"}, Mode: "general", Starve: true}))
+		if c.res != nil && c.sc.Starved {
+			r.Count("v1_without_share.scenarios", 1)
+			if c.res.Stalled != "" {
+				r.Count("v1_without_share.stalled_as_documented", 1)
+			}
+			if c.res.ReachedH {
+				r.NonTrivial(jsonString(c.sc))
+			}
+		}
+	})
 	// real clock: H handler goroutines with random hold times, atomic in-flight counter
 	realBody := func(vers []string, ctl bool) func(t *testing.T, idx int, rng *rand.Rand) {
 		return func(t *testing.T, idx int, rng *rand.Rand) {
@@ -167,6 +180,17 @@ func TestC02(t *testing.T) {
 		c := r.prioCase(t, genPrioScenario(rng, prioGen{Vers: []string{"v1"}, Dividers: allDividers, Mode: "addrm"}))
 		if c.res != nil && c.res.Terminated && c.res.TermWay == "drained" && c.res.PriosWith2 >= 2 {
 			r.NonTrivial(jsonString(c.sc))
+		}
+	})
+	// v1 configurations in which some priority gets no share: that priority may starve (no
+	// delivery is claimed), but whatever is delivered is still delivered once, in order, tagged
+	r.Parallel(t, "v1-priority-without-share", r.Cfg.pick(400, 6000), func(t *testing.T, idx int, rng *rand.Rand) {
+		c := r.prioCase(t, genPrioScenario(rng, prioGen{Vers: []string{"v1", "v1", "v1s"}, Dividers: allDividers, Mode: "general", Starve: true}))
+		if c.res != nil && c.sc.Starved {
+			r.Count("v1_without_share.scenarios", 1)
+			if c.res.PriosWith2 >= 2 {
+				r.NonTrivial(jsonString(c.sc))
+			}
 		}
 	})
 	// real clock: H concurrent handlers; exactly-once, tags, and per-priority order decided on
